@@ -249,13 +249,42 @@ func c08Bases(tier string) [][]tok {
 			}
 		}
 	}
+	// invalid: a foreign token inserted at every gap of a few valid bases (stray names, numbers, brackets)
+	foreign := []tok{{"foo", 'o'}, {"s1f2", 'o'}, {"@", 'o'}, {"\"q\"", 'o'}, {"5", 'n'}, {"<", 'o'}, {">", 'o'}, {".", 'o'}}
+	for _, b := range []int{nvalid - 2, nvalid - 1, 19, 27} {
+		base := bases[b]
+		for j := 0; j <= len(base); j++ {
+			for fi, f := range foreign {
+				if tier != "thorough" && (j+fi)%2 == 1 {
+					continue
+				}
+				ins := append(append(append([]tok{}, base[:j]...), f), base[j:]...)
+				bases = append(bases, ins)
+			}
+		}
+	}
+	// invalid: several diagnostics with IDENTICAL text in one message (their number must not depend on the layout)
+	for _, t := range []string{
+		"S1F1 W H->E Msg < U1 256 257 1 > .", "S1F1 < I1 200 300 -200 > .", "S1F1 < B 256 256 256 > .", "S1F1 < F4 1e39 1e39 > .", "S1F1 < L < U2 70000 > < U2 70000 > > .",
+		"S1F1 < L x x x > .", "S1F1 < A 200 200 > .", "S1F1 < U8 -1 -1 > .", "S1F3 . S1F4 W . S1F6 W .", "S300F1 < U1 256 256 > . S300F1 .",
+	} {
+		var tk []tok
+		for _, f := range strings.Fields(t) {
+			k := byte('o')
+			if f[0] >= '0' && f[0] <= '9' || f[0] == '-' {
+				k = 'n'
+			}
+			tk = append(tk, tok{f, k})
+		}
+		bases = append(bases, tk)
+	}
 	return bases
 }
 
 func init() {
 	h.Register(&h.Check{
 		ID:   "C08",
-		Rule: "bases = printed messages covering every token kind plus every single-token deletion/duplication of them (invalid sequences); for each base: every gap x every separator of a 13-separator alphabet (bound 1), uniform layouts, (thorough) every pair of gaps, a comment from a 273-text alphabet (all 255 final bytes, bare CR inside) appended to every line, blanks/tabs/line breaks inside size declarations, keyword/number-prefix case variants (all-lower, all-upper, each token alone); oracle: identical messages, identical diagnostic texts, diagnostic positions equal to the new line/column of the same token; non-trivial = transformed text parsed and compared with the baseline",
+		Rule: "bases = printed messages covering every token kind plus every single-token deletion/duplication of them, foreign tokens inserted at every gap, and messages with several identical diagnostics (invalid sequences); for each base: every gap x every separator of a 13-separator alphabet (bound 1), uniform layouts, (thorough) every pair of gaps, a comment from a 273-text alphabet (all 255 final bytes, bare CR inside) appended to every line, blanks/tabs/line breaks inside size declarations, keyword/number-prefix case variants (all-lower, all-upper, each token alone); oracle: identical messages, identical diagnostic texts, diagnostic positions equal to the new line/column of the same token; non-trivial = transformed text parsed and compared with the baseline",
 		Build: func(tier string, seed int64) []h.Space {
 			bases := c08Bases(tier)
 			var sp []h.Space
